@@ -83,6 +83,20 @@ def run(prop, tier):
             report.violation("results differ under a presentation edit: " + v[4:],
                              {"kind": "match", "pattern": RULES[c["p"] - 1], "listing": lsts[c["l"] - 1],
                               "listing_text": texts[sel[c["l"] - 1]], "observed": o})
+    # listings of realistic length with the symbol labels at different places (spec/Export_C16Long.tla)
+    long_rules = [seq(ins("ret"), ins("push"), ins("mov")), seq(ins("pop"), ins("ret"), ins("push")), seq(ins("mov"), ins("pop"))]
+    UL = matchpipe.export_universe("Export_C16Long", "Export_C16Long.cfg", report)
+    ljob = [{"id": n, "yaml": render.dump_yaml(render.rule_doc(P))} for n, P in enumerate(long_rules)]
+    lobs = matchpipe.drive({"rules": ljob, "listings": [{"id": n, "text": "\n".join(t) + "\n"} for n, t in enumerate(UL["texts"])],
+                            "pairs": "all"}, tag="c16l")
+    lcases = [matchpipe.case_of(o, o["r"] + 1, 1, False, False) for o in lobs]
+    lverd = matchpipe.validate(long_rules, [UL["stream"]], lcases, report, "c16l")
+    for c, v, o in zip(lcases, lverd, lobs):
+        if v.startswith("rej") and len(report.violations) < 50:
+            report.violation("results depend on where the symbol labels are: " + v[4:],
+                             {"kind": "match", "pattern": long_rules[c["p"] - 1], "listing": UL["stream"],
+                              "listing_text": "\n".join(UL["texts"][o["l"]]) + "\n", "observed": o})
+    mcases, mverd = mcases + lcases, mverd + lverd
     # real objdump variants
     rnd = random.Random(seed() * 31 + 7)
     vs = variants(rnd, 12 if tier == "quick" else 150)
